@@ -489,6 +489,7 @@ def oracle_rates(case, impl, m=None):
             bad.append(('state/total-rate', 'after %d events the waiting time was drawn with %r; the rates of the current statuses sum to %s (%s)' % (
                 steps, e, tot, ', '.join('%r:%s' % (u, r) for u, r in rt.items() if r))))
             break
+        if di > len(draws): break
         t = t + draws[di - 1]
         if tmax is not None and t == tmax: return bad            # a tie of a random draw with tmax: never judged
         if tmax is not None and t > tmax:
@@ -500,13 +501,17 @@ def oracle_rates(case, impl, m=None):
         chosen = None
         while True:
             e = nxt()
-            if e is None: break
+            if e is None:
+                if impl['status'] == 'OK':
+                    bad.append(('stop/stops-early', 'after %d events the run ended at t = %s < tmax although the rates sum to %s' % (steps, t, tot)))
+                break
             if e[0] != 'P':
                 bad.append(('state/choice', 'after %d events at t = %s < tmax with total rate %s: expected choose_random, got %r' % (steps, t, tot, e))); break
             cands = e[1]
             must = [(im[u],) for u in order if rt[u] > 0]
             if not (set(must) <= set(cands) <= set((i,) for i in range(len(order)))) or len(set(cands)) != len(cands):
                 bad.append(('state/candidates', 'after %d events the candidates %r were offered; the nodes with a positive rate are %r' % (steps, cands, must))); break
+            if di > len(draws) or int(draws[di - 1]) >= len(cands): break       # the script was not made for this state
             pick = order[sorted(cands)[int(draws[di - 1])][0]]
             e2 = nxt()
             if e2 is None: break
